@@ -33,6 +33,9 @@ type executeUnit struct {
 	memory     []int8
 	runner     risc.InstructionRunnerPc
 	sequenceID int32
+	// Line fetch in progress on behalf of the current instruction
+	fetching  bool
+	fetchAddr int32
 }
 
 func newExecuteUnit(bu *btbBranchUnit, inBus *comp.BufferedBus[*risc.InstructionRunnerPc], outBus *comp.BufferedBus[risc.ExecutionContext], mmu *memoryManagementUnit) *executeUnit {
@@ -108,6 +111,7 @@ func (u *executeUnit) prepareRun(r euReq) euResp {
 			return euResp{}
 		} else {
 			remainingCycles := latency.MemoryAccess - 1
+			u.fetching, u.fetchAddr = true, addrs[0]
 			u.Checkpoint(func(r euReq) euResp {
 				if remainingCycles > 0 {
 					log.Infoi(r.ctx, "EU", u.runner.Runner.InstructionType(), u.runner.Pc, "pending memory access %d", remainingCycles)
@@ -116,6 +120,7 @@ func (u *executeUnit) prepareRun(r euReq) euResp {
 				}
 				line := u.mmu.fetchCacheLine(addrs[0])
 				u.mmu.pushLineToL3(comp.AlignedAddress(addrs[0]), line)
+				u.fetching = false
 				m, _, exists := u.mmu.getFromL3(addrs)
 				if !exists {
 					panic("cache line doesn't exist")
@@ -188,6 +193,12 @@ func (u *executeUnit) run(r euReq) euResp {
 }
 
 func (u *executeUnit) flush() {
+	if u.fetching {
+		// The instruction is dropped: so is the line fetch it had started, or an
+		// older load of that line would wait for it for ever
+		u.mmu.dropPending(u.fetchAddr)
+		u.fetching = false
+	}
 	u.Reset()
 	u.sequenceID = 0
 }
